@@ -240,3 +240,143 @@ func VerifC12Segmentation() {
 	}
 	lib.VerifReach("reassembled")
 }
+
+// VerifC14Incarnation: every connection method that addresses a remote process or alias refuses an
+// identifier minted by another incarnation of the peer (creation differs) with ErrProcessIncarnation
+// before a single byte is written, and never refuses one of the current incarnation for that reason.
+func VerifC14Incarnation() {
+	m := lib.VerifShard("method", 18)
+	core := &vfCore{name: "a@h", creation: 11}
+	c, sinks := vfConnection(core, "b@h", 22, 1)
+	c.peer_flags.EnableImportantDelivery = true
+	creation := lib.VerifInt64("creation")
+	stale := creation != 22
+	from := gen.PID{Node: "a@h", ID: 5, Creation: 11}
+	pid := gen.PID{Node: "b@h", ID: lib.VerifUint64("id"), Creation: creation}
+	alias := gen.Alias{Node: "b@h", Creation: creation, ID: [3]uint64{1, 2, 3}}
+	opts := gen.MessageOptions{}
+	var err error
+	switch m {
+	case 0:
+		err = c.SendPID(from, pid, opts, int64(1))
+	case 1:
+		err = c.SendAlias(from, alias, opts, int64(1))
+	case 2:
+		err = c.SendExit(from, pid, errVfRemote)
+	case 3:
+		err = c.SendResponse(from, pid, opts, int64(1))
+	case 4:
+		err = c.SendResponseError(from, pid, opts, errVfRemote)
+	case 5:
+		err = c.CallPID(from, pid, opts, int64(1))
+	case 6:
+		err = c.CallAlias(from, alias, opts, int64(1))
+	case 7:
+		if !stale {
+			return // the request would wait for the peer's answer; only the refusal is checked here
+		}
+		err = c.LinkPID(from, pid)
+	case 8:
+		if !stale {
+			return
+		}
+		err = c.UnlinkPID(from, pid)
+	case 9:
+		if !stale {
+			return
+		}
+		err = c.LinkAlias(from, alias)
+	case 10:
+		if !stale {
+			return
+		}
+		err = c.UnlinkAlias(from, alias)
+	case 11:
+		if !stale {
+			return
+		}
+		err = c.MonitorPID(from, pid)
+	case 12:
+		if !stale {
+			return
+		}
+		err = c.DemonitorPID(from, pid)
+	case 13:
+		if !stale {
+			return
+		}
+		err = c.MonitorAlias(from, alias)
+	case 14:
+		if !stale {
+			return
+		}
+		err = c.DemonitorAlias(from, alias)
+	case 15:
+		// with the important flag the same rule applies
+		opts.ImportantDelivery = true
+		err = c.SendPID(from, pid, opts, int64(1))
+	case 16:
+		opts.ImportantDelivery = true
+		err = c.SendAlias(from, alias, opts, int64(1))
+	case 17:
+		opts.ImportantDelivery = true
+		err = c.CallPID(from, pid, opts, int64(1))
+	}
+	if stale {
+		lib.VerifAssert(err == gen.ErrProcessIncarnation, "an identifier of another incarnation is refused with the incarnation error")
+		lib.VerifAssert(len(sinks[0].frames) == 0, "nothing is written for a refused identifier")
+		lib.VerifReach("stale identifier refused")
+	} else {
+		lib.VerifAssert(err != gen.ErrProcessIncarnation, "an identifier of the current incarnation is not refused as stale")
+		lib.VerifAssert(err != nil || len(sinks[0].frames) == 1, "an accepted message is written")
+		lib.VerifReach("current identifier accepted")
+	}
+}
+
+// VerifC14RemoteTerminate: when a local target (process, name, alias, event) that remote processes
+// link or monitor goes away, the notice sent over the connection reaches the peer's node naming the
+// target (as seen from the peer) and carrying the reason - whatever the two nodes' incarnation
+// numbers are.
+func VerifC14RemoteTerminate() {
+	kind := lib.VerifShard("kind", 4)
+	ca := lib.VerifInt64("creationA")
+	cb := lib.VerifInt64("creationB")
+	lib.VerifAssume(ca > 0 && cb > 0)
+	s, sinks := vfConnection(&vfCore{name: "a@h", creation: ca}, "b@h", cb, 1)
+	rCore := &vfCore{name: "b@h", creation: cb}
+	r, _ := vfConnection(rCore, "a@h", ca, 1)
+	id := lib.VerifUint64("id")
+	var err error
+	switch kind {
+	case 0:
+		err = s.SendTerminatePID(gen.PID{Node: "a@h", ID: id, Creation: ca}, errVfRemote)
+	case 1:
+		err = s.SendTerminateProcessID(gen.ProcessID{Name: "srv", Node: "a@h"}, errVfRemote)
+	case 2:
+		err = s.SendTerminateAlias(gen.Alias{Node: "a@h", Creation: ca, ID: [3]uint64{id, 2, 3}}, errVfRemote)
+	case 3:
+		err = s.SendTerminateEvent(gen.Event{Name: "ev", Node: "a@h"}, errVfRemote)
+	}
+	lib.VerifAssert(err == nil, "the termination notice for a local target is sent")
+	if err != nil {
+		return
+	}
+	c12Deliver(r, sinks[0].all, false)
+	lib.VerifAssert(len(rCore.calls) == 1, "the peer's node is told exactly once")
+	if len(rCore.calls) != 1 {
+		return
+	}
+	got := rCore.calls[0]
+	lib.VerifAssert(got.reason != nil && got.reason.Error() == errVfRemote.Error(), "the notice carries the remote reason")
+	switch kind {
+	case 0:
+		lib.VerifAssert(got.kind == "terminate-pid" && got.toPID == gen.PID{Node: "a@h", ID: id, Creation: ca}, "the notice names the terminated process")
+	case 1:
+		lib.VerifAssert(got.kind == "terminate-name" && got.toName == gen.ProcessID{Name: "srv", Node: "a@h"}, "the notice names the unregistered name")
+	case 2:
+		lib.VerifAssert(got.kind == "terminate-alias" && got.toAlias == gen.Alias{Node: "a@h", Creation: ca, ID: [3]uint64{id, 2, 3}}, "the notice names the deleted alias")
+	case 3:
+		lib.VerifAssert(got.kind == "terminate-event" && got.toName.Name == "ev" && got.toName.Node == "a@h", "the notice names the unregistered event")
+	}
+	lib.VerifReach("remote termination delivered")
+}
